@@ -2019,6 +2019,84 @@ func scForInRebind(r *h.Rng) *prog {
 	return p
 }
 
+// a function made by the Function constructor closes over the GLOBAL environment (15.3.2.1 step 11), not over the
+// scope it was made in: made inside a function with a local x, inside with ({x: ..}), inside a catch (x) block; reads,
+// assignments to the free name, a declaration in its body, calls after the maker has returned
+func scFnCtor(r *h.Rng) *prog {
+	p := &prog{}
+	p.v("x", "g", "s", "w")
+	p.add(m.X(m.Asg("x", m.Str("global"))))
+	rd := m.FnCtor(m.Fn{Body: []m.N{m.Ret(m.Var("x"))}})
+	wr := m.FnCtor(m.Fn{Body: []m.N{m.X(m.Asg("x", m.Str("written"))), m.Ret(m.Typeof(m.Var("y")))}})
+	dc := m.FnCtor(m.Fn{Vars: []string{"x"}, Body: []m.N{m.VarS("x", m.Str("own")), m.Ret(m.Var("x"))}})
+	use := func() []m.N {
+		var out []m.N
+		for k := 1 + r.Intn(3); k > 0; k-- {
+			switch r.Intn(4) {
+			case 0:
+				out = append(out, lg(m.Call(rd)))
+			case 1:
+				out = append(out, lg(m.Call(wr)), lg(m.Var("x")))
+			case 2:
+				out = append(out, lg(m.Call(dc)), lg(m.Var("x")))
+			default:
+				out = append(out, m.X(m.Asg("g", rd)), m.X(m.Asg("s", wr)))
+			}
+		}
+		return append(out, lg(m.Var("x")))
+	}
+	switch r.Intn(4) {
+	case 0: // inside a function with a local x (and a local y for the written function's typeof)
+		p.decl("f", m.Fn{Name: "f", Vars: []string{"x", "y"}, Body: append(append([]m.N{m.X(m.Asg("x", m.Str("local"))), m.X(m.Asg("y", m.Num(1)))}, use()...), m.Ret(m.Var("x")))})
+		p.add(lg(m.CallV("f")))
+	case 1: // inside with
+		p.add(m.X(m.Asg("w", m.Obj(m.Prop{K: "x", V: m.Str("inwith")}, m.Prop{K: "y", V: m.Num(1)}))), m.With(m.Var("w"), use()...), lg(m.Get(m.Var("w"), "x")))
+	case 2: // inside a catch block whose parameter is x
+		p.add(m.Try([]m.N{m.Throw(m.Str("caught"))}, "x", use(), nil, true, false))
+	default: // in global code: nothing to tell apart, but the same paths
+		p.add(use()...)
+	}
+	p.add(lg(m.Var("x")), lg(m.Typeof(m.Var("g"))))
+	p.add(m.If(m.Var("g"), []m.N{lg(m.CallV("g")), lg(m.CallV("s")), lg(m.Var("x"))}, nil))
+	p.add(lg(m.Var("x")))
+	return p
+}
+
+// a global function declaration over a property that an EARLIER program left on the global object (10.5 step 5.e:
+// a configurable one is redefined as a plain non-deletable binding before the function is stored; a fixed one must be
+// writable and enumerable): the first program makes N in one of many ways, the second declares function N
+func scRedeclareAcrossRuns(r *h.Rng) *prog {
+	pre := &prog{}
+	name := "N"
+	switch r.Intn(8) {
+	case 0:
+		pre.add(m.X(m.Asg(name, m.Num(1)))) // implicit global: configurable
+	case 1:
+		pre.add(m.X(m.Set(m.This(), name, m.Num(1))))
+	case 2:
+		pre.add(m.X(m.EvalD([]string{name}, nil, []m.N{m.VarS(name, m.Num(1))}))) // eval-declared: configurable
+	case 3:
+		pre.add(m.X(m.EvalI(nil, []m.Decl{{Name: name, F: m.Fn{Name: name, Body: []m.N{m.Ret(m.Num(0))}}}}, []m.N{m.X(m.Num(0))})))
+	case 4:
+		pre.v(name) // a declared global var: not configurable, writable, enumerable
+		pre.add(m.X(m.Asg(name, m.Num(1))))
+	case 5:
+		pre.add(m.X(m.DefNE(m.This(), name, m.Num(1))))
+	case 6:
+		pre.add(m.X(m.DefFix(m.This(), name, m.Num(1))))
+	default:
+		pre.add(m.X(m.Set(m.WProto("Object"), name, m.Num(1)))) // inherited from Object.prototype
+	}
+	pre.add(lg(m.Typeof(m.Var(name))))
+	p := &prog{pre: pre}
+	p.v("cnt", "k", "r")
+	p.decl(name, m.Fn{Name: name, Body: []m.N{m.Ret(m.Num(2))}})
+	p.add(lg(m.Typeof(m.Var(name))), lg(m.DelV(name)), lg(m.Typeof(m.Var(name))),
+		m.X(m.Asg("cnt", m.Num(0))), m.ForIn(false, "k", m.Obj(m.Prop{K: "a", V: m.Num(1)}), inc("cnt", 1)), lg(m.Var("cnt")),
+		m.X(m.Asg(name, m.Num(5))), lg(m.Typeof(m.Var(name))), lg(m.Del(m.This(), name)), lg(m.Typeof(m.Var(name))))
+	return p
+}
+
 func init() {
 	fnScenarios = append(fnScenarios, []fnScenario{
 		{"with-lookup", scWithLookup}, {"with-closure", scWithClosure}, {"with-this", scWithThis}, {"with-var", scWithVar},
@@ -2028,5 +2106,5 @@ func init() {
 		{"labels", scLabels}, {"dup-params", scDupParams}, {"order", scOrder},
 		{"label-capture", scLabelCapture}, {"eval-throw", scEvalThrow},
 		{"hoist-collide", scHoistCollide}, {"label-stale", scLabelStale}, {"host-reentry", scHostReentry},
-		{"bind-chain", scBindChain}, {"forin-init", scForInInit}, {"eval-delete", scEvalDelete}, {"args-define", scArgsDefine}, {"global-redeclare", scGlobalRedeclare}, {"cond-ref", scCondRef}, {"late-global", scLateGlobal}, {"uncaught", scUncaught}, {"fresh-literals", scFreshLiterals}, {"prim-base", scPrimBase}, {"dup-keys", scDupKeys}, {"catch-delete", scCatchDelete}, {"forin-rebind", scForInRebind}}...)
+		{"bind-chain", scBindChain}, {"forin-init", scForInInit}, {"eval-delete", scEvalDelete}, {"args-define", scArgsDefine}, {"global-redeclare", scGlobalRedeclare}, {"cond-ref", scCondRef}, {"late-global", scLateGlobal}, {"uncaught", scUncaught}, {"fresh-literals", scFreshLiterals}, {"prim-base", scPrimBase}, {"dup-keys", scDupKeys}, {"catch-delete", scCatchDelete}, {"forin-rebind", scForInRebind}, {"fn-ctor", scFnCtor}, {"redeclare-runs", scRedeclareAcrossRuns}}...)
 }
